@@ -402,7 +402,15 @@ def promoteAccount (p : Pool) (a : Nat) : Pool :=
 
 def promoteExecutables (p : Pool) (accts : List Nat) : Pool := accts.foldl promoteAccount p
 
-/-- one account of `demoteUnexecutables` -/
+/-- the loop `for list.txs.Get(nonce+executable) != nil { executable++ }` of
+`demoteUnexecutables`: how many consecutive nonces starting at `n` the list holds (the loop
+cannot run more than `len` times on a nonce-indexed map, hence the fuel) -/
+def countRun : Nat → TxList → Nat → Nat
+  | 0, _, _ => 0
+  | fuel + 1, l, n => if (l.get? n).isSome then 1 + countRun fuel l (n + 1) else 0
+
+/-- one account of `demoteUnexecutables` (with the repair of finding C17-R1: everything above the
+first nonce gap is postponed, not only a list whose first nonce is missing) -/
 def demoteAccount (p : Pool) (a : Nat) : Pool :=
   match amGet p.pending a with
   | none => p
@@ -413,7 +421,8 @@ def demoteAccount (p : Pool) (a : Nat) : Pool :=
     let d := f.1.filter (p.balance a) p.chain.gasLimit
     let p2 := p1.allRemoveL d.2.1
     let p3 := d.2.2.foldl (fun q t => (q.enqueueTx t false false).1) p2
-    let g := if d.1.len > 0 ∧ (d.1.get? nonce).isNone then d.1.cap 0 else (d.1, [])
+    let executable := countRun d.1.len d.1 nonce
+    let g := if d.1.len > executable then d.1.cap executable else (d.1, [])
     let p4 := g.2.foldl (fun q t => (q.enqueueTx t false false).1) p3
     if g.1.isEmpty then { p4 with pending := amErase p4.pending a }
     else { p4 with pending := amSet p4.pending a g.1 }
@@ -571,6 +580,22 @@ def expire (p : Pool) (a : Nat) : Pool :=
 
 /-- head reset followed by the reorg run (`requestReset(nil, nil)`) -/
 def reset (p : Pool) (c : Chain) : List Pool := p.runReorg (some c) []
+
+/-- the reset branch of `runReorg` once the new head is installed: promotion for every queued
+account, demotion, virtual nonces from the pending lists, truncation -/
+def reorgAfterReset (p1 : Pool) : List Pool :=
+  let p2 := p1.promoteExecutables (p1.queue.map (·.1))
+  let q : Pool := p2.demoteUnexecutables
+  let p3 : Pool := { q with pnonce := q.pending.map (fun (e : Nat × TxList) =>
+      (e.1, ((e.2.txs.getLast?).map (fun (t : Tx) => t.nonce + 1)).getD 0)) }
+  p3.truncatePending.truncateQueue.map (fun (q : Pool) => { q with changes := 0 })
+
+/-- `reset(oldHead, newHead)` on a chain reorganisation: the new state view is installed, the
+transactions of the dropped branch that the new branch does not contain (`reinject`, in block
+order) go through `addTxsLocked(reinject, false)`, then the reset reorg run.  With
+`reinject = []` this is `reset`. -/
+def resetReinject (p : Pool) (c : Chain) (reinject : List Tx) : List Pool :=
+  ((p.resetHead c).addBatch false reinject).flatMap (fun r => reorgAfterReset r.1)
 
 end Pool
 
